@@ -954,7 +954,7 @@ def _mask(sig, num_args, hide_args, hide_kwargs,
             if varargs:
                 src.pop(varargs.name, None)
                 varargs = None
-            pokargs_by_name.clear()
+            pokargs_by_name = dict((p.name, p) for p in pokargs)
         elif kwarg_name in kwoargs:
             if partial_mode:
                 param = kwoargs[kwarg_name]
